@@ -43,7 +43,7 @@ func c15BoundaryValues(lm uint) []*big.Int {
 func TestVerifC15AttributeHashSites(t *testing.T) {
 	r := vkit.Start(t, "C15", "attribute-hash-sites", 120*time.Second, 600*time.Second)
 	defer r.Finish()
-	r.Rule = "attribute-hash rule (value if BitLen <= l_m else SHA-256(bytes)) at its four use sites - signer RepresentToBases, CLSignature.Verify, prover (hidden attribute) and verifier (disclosed attribute) - against one reference, on credentials minted by the harness with the reference representation: every boundary value (3 values of each bit length in {1, 8, l_m-8, l_m-1, l_m, l_m+1, l_m+2, l_m+7, l_m+8, l_m+9, 2 l_m, 3 l_m+5}) x every attribute position x {disclosed, hidden}; non-trivial = distinct (key, value, position, mode)"
+	r.Rule = "attribute-hash rule (value if BitLen <= l_m else SHA-256(bytes)) at its four use sites - signer RepresentToBases, CLSignature.Verify, prover (hidden attribute) and verifier (disclosed attribute) - against one reference, on credentials minted by the harness with the reference representation: every boundary value (3 values of each bit length in {1, 8, l_m-8, l_m-1, l_m, l_m+1, l_m+2, l_m+7, l_m+8, l_m+9, 2 l_m, 3 l_m+5}) x every attribute position and both positions at once x {disclosed, hidden}; non-trivial = distinct (key, value, position, mode)"
 	env := vfInstallEnv(t, "c15-sites", r.Seed)
 	defer env.Restore()
 	keys := []string{"toyA", "t512", "k1024a"}
@@ -58,7 +58,7 @@ func TestVerifC15AttributeHashSites(t *testing.T) {
 		pk := k.Pk
 		lm := pk.Params.Lm
 		for vi, v := range c15BoundaryValues(lm) {
-			for pos := 1; pos <= 2; pos++ {
+			for pos := 1; pos <= 3; pos++ { // 3: both positions carry a value of this size (two hashed attributes in one block)
 				n++
 				if !r.Mine(n) {
 					continue
@@ -68,7 +68,11 @@ func TestVerifC15AttributeHashSites(t *testing.T) {
 					return
 				}
 				ms := []*big.Int{vfTag("c15-secret"), vfInt(50), vfInt(51)}
-				ms[pos] = v
+				if pos == 3 {
+					ms[1], ms[2] = v, new(big.Int).Add(new(big.Int).Lsh(v, 1), vfInt(1))
+				} else {
+					ms[pos] = v
+				}
 				id := fmt.Sprintf("%s|bits=%d(lm%+d)#%d|pos=%d", kn, v.BitLen(), v.BitLen()-int(lm), vi%3, pos)
 				// reference representation
 				ref := big.NewInt(1)
@@ -106,6 +110,12 @@ func TestVerifC15AttributeHashSites(t *testing.T) {
 					if mode == "hidden" {
 						D = []int{3 - pos}
 					}
+					if pos == 3 {
+						D = []int{1, 2}
+						if mode == "hidden" {
+							D = []int{}
+						}
+					}
 					r.Eval()
 					r.Nontrivial(id + "|" + mode)
 					var p *ProofD
@@ -124,7 +134,7 @@ func TestVerifC15AttributeHashSites(t *testing.T) {
 						r.Violate("C15|attribute-hash-site|verifier-rejects|"+mode, id, map[string]any{"value": v.String()})
 					case !rok:
 						r.Violate("C15|attribute-hash-site|prover-deviates|"+mode, id+": "+why, map[string]any{"value": v.String()})
-					case mode == "disclosed" && (p.ADisclosed[pos] == nil || p.ADisclosed[pos].Cmp(v) != 0):
+					case mode == "disclosed" && pos != 3 && (p.ADisclosed[pos] == nil || p.ADisclosed[pos].Cmp(v) != 0):
 						r.Violate("C15|attribute-hash-site|disclosed-value-not-the-attribute", id, nil)
 					}
 				}
